@@ -9,6 +9,8 @@ import (
 	"math/rand"
 	"reflect"
 	"sort"
+	"strconv"
+	"strings"
 
 	"github.com/blues/jsonata-go/jtypes"
 )
@@ -85,14 +87,60 @@ func distinctKey(item reflect.Value) interface{} {
 		// We can't hash maps and slices, so convert them to
 		// their JSON representation (which, unlike fmt.Sprint,
 		// distinguishes 1 from "1").
-		s, err := String(item.Interface())
-		if err != nil {
-			s = fmt.Sprint(item.Interface())
-		}
-		return distinctCompositeKey{json: s}
+		return distinctCompositeKey{json: distinctText(item.Interface())}
 	}
 
 	return item.Interface()
+}
+
+// distinctText returns a text that is the same for two values
+// if and only if they are equal by value. It is the JSON text
+// of the value, except that the members of an object are sorted,
+// zero has no sign and strings keep bytes that are not valid
+// UTF-8 (JSON would replace them).
+func distinctText(v interface{}) string {
+	switch v := v.(type) {
+	case map[string]interface{}:
+		keys := make([]string, 0, len(v))
+		for key := range v {
+			keys = append(keys, key)
+		}
+		sort.Strings(keys)
+		var sb strings.Builder
+		sb.WriteByte('{')
+		for i, key := range keys {
+			if i > 0 {
+				sb.WriteByte(',')
+			}
+			sb.WriteString(strconv.Quote(key))
+			sb.WriteByte(':')
+			sb.WriteString(distinctText(v[key]))
+		}
+		sb.WriteByte('}')
+		return sb.String()
+	case []interface{}:
+		var sb strings.Builder
+		sb.WriteByte('[')
+		for i, value := range v {
+			if i > 0 {
+				sb.WriteByte(',')
+			}
+			sb.WriteString(distinctText(value))
+		}
+		sb.WriteByte(']')
+		return sb.String()
+	case string:
+		return strconv.Quote(v)
+	case float64:
+		// -0 + 0 is +0.
+		return strconv.FormatFloat(v+0, 'g', -1, 64)
+	}
+
+	s, err := String(v)
+	if err != nil {
+		s = fmt.Sprint(v)
+	}
+	return s
 }
 
 // Append (golint)
